@@ -2377,11 +2377,14 @@ class MultiUserChannelMatrixExtInt(  # pylint: disable=R0904
             = MultiUserChannelMatrixExtInt._prepare_input_parans(
                 Nr, Nt, K, NtE)
 
-        self._extIntK = extIntK
-        self._extIntNt = extIntNt
-
+        # Note: this raises an exception if the arguments are invalid. Only
+        # after that we store the external interference configuration (a
+        # rejected call must not change the object).
         MultiUserChannelMatrix.init_from_channel_matrix(
             self, channel_matrix, full_Nr, full_Nt, full_K)
+
+        self._extIntK = extIntK
+        self._extIntNt = extIntNt
 
     def randomize(  # type: ignore
             self, Nr: IntOrIntArrayUnion, Nt: IntOrIntArrayUnion, K: int,
